@@ -25,7 +25,8 @@ EffKind(st) == IF st.fdkind = "none" /\ NBlocks(st) = 1 THEN "tuple" ELSE st.fdk
 EffSet(st)  == IF st.fdkind = "none" /\ NBlocks(st) = 1 THEN {st.block[1]} ELSE st.fdset
 
 Keep(st, i, j) ==
-  IF st.block[i] # st.block[j] THEN FALSE
+  IF st.fdkind = "direct" THEN st.keepm[i][j] = 1     \* pattern computed elsewhere (Fock space)
+  ELSE IF st.block[i] # st.block[j] THEN FALSE
   ELSE IF EffKind(st) = "tuple" /\ st.block[i] \in EffSet(st) THEN st.E[i] = st.E[j]
   ELSE IF EffKind(st) = "dict"  /\ st.block[i] \in EffSet(st)
        THEN st.elim[st.block[i]][Local(st, i)][Local(st, j)] = 0
